@@ -100,7 +100,7 @@ func checkC03(c *Ctx) {
 			c.Fail("R1", site, ed.Pos(), why+": the command is routed by other bytes than its own key and is answered MOVED (or all children of a split go to the node of one key)")
 		}
 	}
-	c.Check(nCall >= 5, "R1", "MakeRequest call sites", mr.Pos(), fmt.Sprintf("%d sites", nCall), "fewer keyed call sites than handlers")
+	c.Check(nCall >= 2, "R1", "MakeRequest call sites", mr.Pos(), fmt.Sprintf("%d sites", nCall), "no keyed call site of MakeRequest")
 	// generic handler names have first key 1 (C14.R1 checks the same table; repeated here because R1 relies on it)
 	binds, _ := handlerTable(c, "R1")
 	byFn := map[*ssa.Function][]string{}
@@ -120,7 +120,7 @@ func checkC03(c *Ctx) {
 		}
 		c.Check(len(bad) == 0, "R1", "first-key position of names bound to "+fn.Name(), fn.Pos(), fmt.Sprintf("%d names, all with first key at argument 1", len(names)), "commands "+strings.Join(bad, ",")+" do not have their first key at argument 1 but are routed by argument 1")
 	}
-	c.Expect("R1", 7)
+	c.Expect("R1", 4)
 
 	// ---------------- R2
 	checkSplitAssemble(c, "R2")
